@@ -108,6 +108,12 @@ def variants(A, B):
             cands += [a + tail[:len(tail) // 2], a + tail[:1], a + tail[:-1]]
         else:
             cands += [b[:len(b) // 2], b[:-1], b[:1]]
+            if a:
+                # a writer that overwrites in place instead of truncating first: new prefix, old tail
+                ks = range(1, len(b)) if len(b) <= 160 else {1, len(b) // 2, len(b) - 1, min(len(a), len(b)) - 1, (2 * len(b)) // 3}
+                for k in sorted(ks):
+                    if 0 < k < len(b):
+                        cands.append(b[:k] + a[k:])
         for c in cands:
             if c != a and c != b:
                 t = dict(A)
@@ -116,9 +122,9 @@ def variants(A, B):
     return out
 
 
-def open_array_view(p):
+def open_array_view(p, mode='r'):
     try:
-        a = darr.Array(p)
+        a = darr.Array(p, accessmode=mode)
         d = a[:]
         v = dict(dtype=dtype_info(a.dtype), shape=list(a.shape), data=np.ascontiguousarray(d).tobytes().hex())
         try:
@@ -130,9 +136,9 @@ def open_array_view(p):
         return None
 
 
-def open_ragged_view(p):
+def open_ragged_view(p, mode='r'):
     try:
-        ra = darr.RaggedArray(p)
+        ra = darr.RaggedArray(p, accessmode=mode)
         subs = [np.ascontiguousarray(ra[i]).tobytes().hex() for i in range(len(ra))]
         v = dict(dtype=dtype_info(ra.dtype), atom=list(ra.atom), n=len(ra), subs=subs)
         try:
@@ -202,16 +208,17 @@ def array_scenario(case, d):
     bad = []
     opened = 0
     for nm, t in probes:
+      for mode in ('r', 'r+'):
         write_tree(scratch, t)
-        v = open_array_view(scratch)
+        v = open_array_view(scratch, mode)
         if v is None:
             continue
         opened += 1
         core = {kk: v[kk] for kk in ('dtype', 'shape', 'data')}
         if core not in legit_views:
-            bad.append(dict(probe=nm, view=dict(dtype=v['dtype'], shape=v['shape'], data=v['data'][:64])))
+            bad.append(dict(probe=nm, mode=mode, view=dict(dtype=v['dtype'], shape=v['shape'], data=v['data'][:64])))
         elif v['meta'] != 'raises' and v['meta'] not in (meta_before, meta_after):
-            bad.append(dict(probe=nm, meta=v['meta']))
+            bad.append(dict(probe=nm, mode=mode, meta=v['meta']))
     shutil.rmtree(scratch, ignore_errors=True)
     out = dict(res=res, states=[files_view_array(s) for s in states], events=events, probes=len(probes),
                opened=opened, bad=bad, legit=[x['shape'] for x in legit_views])
@@ -283,17 +290,18 @@ def ragged_scenario(case, d):
     bad = []
     opened = 0
     for nm, t in probes:
+      for mode in ('r', 'r+'):
         write_tree(scratch, t)
         for subdir in ('values', 'indices'):
             os.makedirs(os.path.join(scratch, subdir), exist_ok=True)
-        v = open_ragged_view(scratch)
+        v = open_ragged_view(scratch, mode)
         if v is None:
             continue
         opened += 1
         if v['subs'] not in legit_views or v['atom'] != list(atom) or v['dtype'] != dtype_info(dt):
-            bad.append(dict(probe=nm, n=v['n'], subs=[x[:32] for x in v['subs']][:8]))
+            bad.append(dict(probe=nm, mode=mode, n=v['n'], subs=[x[:32] for x in v['subs']][:8]))
         elif v['meta'] != 'raises' and v['meta'] not in (meta_before, meta_after):
-            bad.append(dict(probe=nm, meta=v['meta']))
+            bad.append(dict(probe=nm, mode=mode, meta=v['meta']))
     shutil.rmtree(scratch, ignore_errors=True)
 
     def rstate(t):
